@@ -7,7 +7,6 @@ From V.model Require Import Base RelLex RelParse RelAcc RelGrammar.
 From V.proofs Require Import BaseP RelGrammarLexP RelGrammarParseP RelGrammarAccP.
 From V.model Require Import RelEdit RelEditSpec RelEditTree.
 From V.proofs Require Import RelEditP.
-Set Default Timeout 60.
 
 Definition vop_of (v : vcn) : RelAcc.vop :=
   match v with
